@@ -6,6 +6,7 @@ From Coq Require Import NArith List Bool.
 From Coq Require Import Lia.
 From V Require Import Model.Transfer Proofs.TransferProofs Proofs.TransferProofs2.
 From V Require Import Proofs.TransferProofsX1 Proofs.TransferProofsX2 Proofs.TransferProofsX3 Proofs.TransferProofsX4.
+From V Require Import Model.TransferDims Proofs.TransferProofsD.
 Import ListNotations.
 Open Scope N_scope.
 
@@ -344,3 +345,63 @@ Example transfer_exact_keeps_existing :
   let '(t1, o1, _) := transfer_from Copy [1; 2] true true x_src t in
   o1 = Ok /\ dsets t1 = [D 1 0 0 0; D 2 0 1 0] /\ stored t1 = [(1, (Some 77, true)); (2, (Some 12, true))].
 Proof. vm_compute. repeat split. Qed.
+
+(* ==================================================================== wave 4b: "the same dimension records" as a closure *)
+(* Model/TransferDims.v: rows of the 11 dimension-element tables copied by transfer_from(transfer_dimensions=True) /
+   transfer_dimension_records_from for a selection of data IDs over {visit, detector}, {visit}, {exposure}, {detector}.
+   `reach false s sel r`: r is reachable from a selected data ID through required and implied elements (the records of
+   the expanded data ID) or through an element populated by `visit` (visit_definition, visit_system_membership) and the
+   records those rows point at (exposure, group, visit_system); visit_detector_region only for (visit, detector) pairs
+   named by a data ID.  `reach true` additionally allows every region row of a selected visit and its detector. *)
+Theorem transfer_dimension_records_closed : forall s sel r, reach false s sel r -> In r (xfer_rows false s sel).
+Proof. exact xfer_complete. Qed.
+Print Assumptions transfer_dimension_records_closed.
+
+Theorem transfer_dimension_records_nothing_else : forall s sel r, In r (xfer_rows false s sel) -> reach true s sel r.
+Proof. exact xfer_sound. Qed.
+Print Assumptions transfer_dimension_records_nothing_else.
+
+(* the variant in which the "already a primary record" guard abandons the rest of the populated-by list (`break` instead
+   of `continue`) violates the closure: a {visit, detector} dataset with a region row loses its visit_system_membership *)
+Theorem populated_by_break_variant_refuted :
+  exists s sel r, reach false s sel r /\ In r (xfer_rows false s sel) /\ ~ In r (xfer_rows true s sel).
+Proof.
+  exists (DS [] [(20, 0)] [(20, 1)]), [(0, 20, 1)], (11, 20, 0). split; [|split].
+  - eapply (R_vsm false _ _ 0 20 1 0); [left; reflexivity | reflexivity | left; reflexivity | left; reflexivity].
+  - vm_compute. tauto.
+  - vm_compute. intuition discriminate.
+Qed.
+Print Assumptions populated_by_break_variant_refuted.
+
+(* export writes only the records inside the expanded data IDs: populated-by rows are NOT exported (by design:
+   saveDimensionData is the documented way) -- witness; the oracle therefore demands them only for the butler-to-butler
+   operations *)
+Theorem export_omits_populated_by_rows_witness :
+  exists s sel r, reach false s sel r /\ In r (xfer_rows false s sel) /\ ~ In r (exim_rows s sel).
+Proof.
+  exists (DS [] [(20, 0)] []), [(1, 20, 0)], (11, 20, 0). split; [|split].
+  - eapply (R_vsm false _ _ 1 20 0 0); [left; reflexivity | reflexivity | left; reflexivity | left; reflexivity].
+  - vm_compute. tauto.
+  - vm_compute. intuition discriminate.
+Qed.
+Print Assumptions export_omits_populated_by_rows_witness.
+
+(* quirk of the unchanged code: the guard looks at the primary records of the WHOLE selection, so adding a {visit,
+   detector} dataset to a selection removes the region rows that a {visit} dataset alone would bring (transfer of a union
+   is not the union of the transfers) *)
+Theorem mixed_selection_drops_regions_witness :
+  exists s a b r, In r (xfer_rows false s b) /\ ~ In r (xfer_rows false s (a ++ b)).
+Proof.
+  exists (DS [] [] [(20, 1); (21, 1)]), [(0, 20, 1)], [(1, 21, 0)], (10, 21, 1). split.
+  - vm_compute. tauto.
+  - vm_compute. intuition discriminate.
+Qed.
+Print Assumptions mixed_selection_drops_regions_witness.
+
+Example dimension_closure_nonvacuous :
+  xfer_rows false (DS [(20, 10); (20, 12)] [(20, 0)] [(20, 1); (20, 2)]) [(0, 20, 1)] =
+  [(1, 0, 0); (2, 1, 0); (5, 0, 0); (8, 20, 0); (3, 1, 0); (10, 20, 1);
+   (1, 0, 0); (2, 1, 0); (5, 0, 0); (8, 20, 0); (1, 0, 0); (2, 1, 0); (4, 10, 0); (5, 0, 0); (7, 10, 0); (9, 20, 10);
+   (1, 0, 0); (2, 1, 0); (5, 0, 0); (8, 20, 0); (1, 0, 0); (2, 1, 0); (4, 12, 0); (5, 0, 0); (7, 12, 0); (9, 20, 12);
+   (1, 0, 0); (2, 1, 0); (5, 0, 0); (8, 20, 0); (6, 0, 0); (11, 20, 0)].
+Proof. vm_compute. reflexivity. Qed.
